@@ -280,7 +280,7 @@ func genGo(r *vh.Rng) Case {
 		case 2:
 			c.Hist = append(c.Hist, acquire(i, false, nil)...)
 		case 3:
-			c.Hist = append(c.Hist, HOp{K: "age", D: c.Pool.LeaseSec / 2})
+			c.Hist = append(c.Hist, HOp{K: "age", D: c.Pool.LeaseSec/2 - 13}) // never exactly on the expiry second
 		case 4:
 			c.Hist = append(c.Hist, HOp{K: "disc", C: i})
 		case 5:
@@ -605,7 +605,7 @@ func genLens(r *vh.Rng) Case {
 	fs.STag, fs.CTag = 11, 12
 	fs.Options = buildOptions(r, s)
 	full := buildFrame(fs)
-	for n := 0; n <= len(full)+64; n++ {
+	for n := 0; n <= len(full)+24; n++ {
 		f := make([]byte, n)
 		copy(f, full)
 		p := Probe{Frame: f, Route: "k"}
@@ -646,25 +646,25 @@ func writeCorpus(dir string) {
 	c.Probes = []Probe{frame(disc, FrameSpec{}), frame(req, FrameSpec{})}
 	w["k03a-byte-order"] = c
 	c = base("net")
-	c.Note = "K03b: IHL 6 request: checksum over 20 of 24 header bytes, lengths 4 short, END option cut off"
+	c.Note = "regression for the IHL fix (K03b): IHL 6 / 15 requests of a cached client were answered with a bad checksum, short lengths and a cut-off END option; they must be passed unmodified"
 	c.Probes = []Probe{frame(disc, FrameSpec{IHL: 6}), frame(req, FrameSpec{IHL: 15})}
-	w["k03b-ihl"] = c
+	w["fixed-k03b-ihl"] = c
 	c = base("net")
 	c.Note = "K03c: lease expired on the Unix clock an hour ago, ktime is seconds since boot: still answered"
 	c.Hist = append(c.Hist, HOp{K: "age", D: 7200})
 	c.Probes = []Probe{frame(disc, FrameSpec{})}
 	w["k03c-clock-domain"] = c
 	c = base("net")
-	c.Note = "K03d: DHCPDECLINE removes the lease, the cache entry stays: the declined address is offered again from the kernel"
+	c.Note = "regression for the DECLINE fix (K03d): after DHCPDECLINE the cache entries are gone and the DISCOVER is passed"
 	c.Hist = append(c.Hist, HOp{K: "dec", C: 0})
 	c.Probes = []Probe{frame(disc, FrameSpec{})}
-	w["k03d-decline"] = c
+	w["fixed-k03d-decline"] = c
 	c = base("net")
-	c.Note = "K03e: expired lease swept by cleanupExpiredLeases: MAC entry removed, circuit-id entry left"
+	c.Note = "regression for 81d6b2b: an expired lease swept by cleanupExpiredLeases loses its circuit-id entry too; the relayed DISCOVER is passed"
 	c.Hist = acquire(0, true, cids[0])
 	c.Hist = append(c.Hist, HOp{K: "age", D: 3700}, HOp{K: "clean"})
 	c.Probes = []Probe{frame(reqSpec{typ: 1, cid: cids[0], cidPos: 1}, FrameSpec{Giaddr: relayIP})}
-	w["k03e-sweep-leaves-circuit-id"] = c
+	w["fixed-81d6b2b-swept-circuit-id-entry"] = c
 	c = base("net")
 	c.Note = "K03f: REQUEST for another address: slow path NAK (IP mismatch), fast path ACK"
 	c.Probes = []Probe{frame(reqSpec{typ: 3, reqIP: otherIP(ip)}, FrameSpec{})}
